@@ -12,6 +12,7 @@ import (
 	"io"
 	"math/big"
 	"os"
+	"sync/atomic"
 	"syscall"
 	"testing"
 	"time"
@@ -134,13 +135,20 @@ func c19Call(s *c19Script, rd io.Reader, f func(io.Reader)) (pan interface{}, hu
 	}
 	done := make(chan interface{}, 1)
 	go func() { done <- vt.Catch(func() { f(rd) }) }()
+	limit := 60 * time.Second
+	if c19HangSeen.Load() {
+		limit = 5 * time.Second // a first call has already hung for a minute: the re-runs while shrinking need not wait as long
+	}
 	select {
 	case pan = <-done:
 		return pan, false
-	case <-time.After(60 * time.Second):
+	case <-time.After(limit):
+		c19HangSeen.Store(true)
 		return nil, true
 	}
 }
+
+var c19HangSeen atomic.Bool
 
 func (s *c19Script) reader() *faultyReader {
 	return &faultyReader{data: s.stream, failAt: s.failAt, err: s.err, withData: s.withData, chunks: s.chunks, transient: s.transient}
